@@ -9,6 +9,21 @@ v = json.load(open(os.path.join(src, 'verify.json')))
 if not v['confirmed']:
     sys.exit('not confirmed: %s' % v)
 dst = '/verif/seeded/%s-%s' % (pid, name)
+
+
+def _norm(t):
+    import re
+    return '\n'.join(l for l in t.splitlines() if (l.startswith('+') or l.startswith('-')) and not l.startswith('+++') and not l.startswith('---'))
+
+
+import glob
+mine = _norm(open(os.path.join(src, 'patch.diff')).read())
+for other in sorted(glob.glob('/verif/seeded/C*-*/patch.diff')):
+    if os.path.dirname(other) != dst and _norm(open(other).read()) == mine:
+        print('duplicate of %s: not kept' % os.path.basename(os.path.dirname(other)))
+        with open('/verif/seeded/duplicates.txt', 'a') as f:
+            f.write('%s/%s (round dir %s) == %s\n' % (pid, x, out, os.path.basename(os.path.dirname(other))))
+        sys.exit(0)
 os.makedirs(dst, exist_ok=True)
 for f in ('patch.diff', 'demo.diff', 'notes.md'):
     shutil.copy(os.path.join(src, f), os.path.join(dst, f))
